@@ -279,7 +279,7 @@ func objMap(f *sif.FileImage) map[uint32]string {
 }
 
 // crashCheck decides one image left behind by an interrupted operation.
-func crashCheck(img []byte, pre, post map[uint32]string, dropTimes, betweenCalls bool) string {
+func crashCheck(img []byte, pre, post map[uint32]string, dropTimes, betweenCalls bool, skip map[uint32]bool) string {
 	f, err := sif.LoadContainer(sif.NewBuffer(append([]byte(nil), img...)), sif.OptLoadWithFlag(os.O_RDONLY))
 	if err != nil {
 		return "the file no longer loads: " + err.Error()
@@ -294,7 +294,7 @@ func crashCheck(img []byte, pre, post map[uint32]string, dropTimes, betweenCalls
 		return false
 	})
 	for id, l := range pre {
-		if pl, ok := post[id]; ok && pl == l {
+		if pl, ok := post[id]; ok && pl == l && !skip[id] {
 			// not being changed by the operation
 			if have[l] == 0 {
 				if g, ok := got[id]; ok {
@@ -341,6 +341,10 @@ func opFailed(obs []string) bool {
 // crashOracle runs after op was applied with recording on.  b0/pre: state before; evs: recording.
 func (e *Env) crashOracle(op *Op, obs []string, b0 []byte, pre map[uint32]string, evs []ioEv) (out []*Violation) {
 	post := objMap(e.f)
+	// the operation's own targets are not bystanders even when, by coincidence of the clock, the
+	// completed operation left their line unchanged (set-metadata with the default time in the
+	// second the object was created): take them out of the comparison
+	skip := targetsOf(op, b0)
 	failed := opFailed(obs)
 	if failed {
 		post = pre
@@ -360,7 +364,7 @@ func (e *Env) crashOracle(op *Op, obs []string, b0 []byte, pre map[uint32]string
 		if ci.j > 0 {
 			e.stat("crash:torn-images", 1)
 		}
-		if why := crashCheck(ci.buf, pre, post, false, ci.j == 0); why != "" {
+		if why := crashCheck(ci.buf, pre, post, false, ci.j == 0, skip); why != "" {
 			if strings.HasPrefix(why, "the file no longer loads") && tornInNegativeLeftover(b0, ci) {
 				// D11 (known finding): the slot being filled held, not in use, a leftover descriptor
 				// with a negative offset or size, and the table write is torn inside that slot
@@ -393,7 +397,7 @@ func (e *Env) crashOracle(op *Op, obs []string, b0 []byte, pre map[uint32]string
 			if short && (evs[k-1].Kind != "write" || len(evs[k-1].P) < 2) {
 				continue
 			}
-			if why := e.faultRun(op, b0, pre, post, k, short, evs); why != "" {
+			if why := e.faultRun(op, b0, pre, post, k, short, evs, skip); why != "" {
 				v := "error"
 				if short {
 					v = "short write + error"
@@ -412,7 +416,7 @@ func (e *Env) stat(k string, n int) {
 	}
 }
 
-func (e *Env) faultRun(op *Op, b0 []byte, pre, post map[uint32]string, k int, short bool, evs []ioEv) string {
+func (e *Env) faultRun(op *Op, b0 []byte, pre, post map[uint32]string, k int, short bool, evs []ioEv, skip map[uint32]bool) string {
 	dir, err := os.MkdirTemp(e.dir, "fault")
 	if err != nil {
 		return ""
@@ -443,7 +447,7 @@ func (e *Env) faultRun(op *Op, b0 []byte, pre, post map[uint32]string, k int, sh
 		return fmt.Sprintf("only %d calls before the failure, expected %d", len(got), len(want))
 	}
 	bf := e2.storeBytes()
-	if why := crashCheck(bf, pre, post, true, !short); why != "" {
+	if why := crashCheck(bf, pre, post, true, !short, skip); why != "" {
 		return "bytes left behind: " + why
 	}
 	return ""
@@ -462,4 +466,30 @@ func tornInNegativeLeftover(b0 []byte, ci crashImage) bool {
 	}
 	d := ds[slot]
 	return !d.Used && (d.Off < 0 || d.Size < 0) && ci.j%585 >= 5
+}
+
+// targetsOf: the objects an operation addresses by ID (and, for set-primary, the current primary
+// partition, which gets demoted); they are not bystanders.
+func targetsOf(op *Op, b0 []byte) map[uint32]bool {
+	out := map[uint32]bool{}
+	switch op.Kind {
+	case "setmeta", "setoci", "setprim":
+	default:
+		return out
+	}
+	out[op.ID] = true
+	if op.Kind == "setprim" {
+		if _, ds, err := decodeRaw(b0); err == nil {
+			for _, d := range ds {
+				if d.Used && d.DT == 0x4004 && len(d.Extra) >= 8 && le32(d.Extra[4:]) == 2 {
+					out[d.ID] = true
+				}
+			}
+		}
+	}
+	return out
+}
+
+func le32(b []byte) int32 {
+	return int32(uint32(b[0]) | uint32(b[1])<<8 | uint32(b[2])<<16 | uint32(b[3])<<24)
 }
